@@ -388,6 +388,13 @@ func Report(r *runner.Run, spec Spec, res *Result) {
 		r.Add("outcome:"+k, v)
 		r.Distinct("outcome:" + k)
 	}
+	for _, h := range res.SampleHists {
+		txt := make([]string, len(h))
+		for i, o := range h {
+			txt[i] = o.String()
+		}
+		r.Sample(map[string]any{"run": label, "history": txt})
+	}
 	for k := range res.Edges {
 		r.Distinct("edge:" + k)
 	}
